@@ -555,7 +555,7 @@ func storeSet(st *State, store string, k *Term, v *BytesV) {
 		m.set(k, v)
 	}
 	st.W.Writes++
-	st.W.WriteLog = append(st.W.WriteLog, k)
+	st.W.WriteLog = append(st.W.WriteLog, writeRec{store, k, v})
 }
 
 func storeGet(cc *CallCtx, v *storeView, key *Term, hasOnly bool) []Outcome {
